@@ -978,8 +978,17 @@ func (r *Raft) verifyLeader(v *verifyFuture) {
 	v.notifyCh = r.verifyCh
 	r.leaderState.notify[v] = struct{}{}
 
-	// Trigger immediate heartbeats
-	for _, repl := range r.leaderState.replState {
+	// Trigger immediate heartbeats. Only voters may vouch for our leadership:
+	// quorumSize counts voters, so an acknowledgement from a non-voter must
+	// not be tallied against it.
+	for _, server := range r.configurations.latest.Servers {
+		if server.Suffrage != Voter || server.ID == r.localID {
+			continue
+		}
+		repl, ok := r.leaderState.replState[server.ID]
+		if !ok {
+			continue
+		}
 		repl.notifyLock.Lock()
 		repl.notify[v] = struct{}{}
 		repl.notifyLock.Unlock()
